@@ -1,6 +1,7 @@
 """C18 Sync groups give each terminal disjoint, exactly-sized process data
 
-domain : 1-4 sync groups (slow and fast) on one master, each over 1-8
+domain : 1-4 sync groups (slow and fast) on one master (which may have
+         allocated up to 40 groups before), each over 1-8
          terminals with input/output sizes 0..200 (a few large ones so that
          some groups overflow the frame), read-write flags (per device: a
          terminal may be used by several devices of the group), FMMU or direct
@@ -68,6 +69,8 @@ def strategy(tier):
         # this size (around the 1500 byte limit)
         "fit": st.none() | st.none() | st.sampled_from(
             [1497, 1498, 1499, 1500, 1501, 1502, 1503, 1504]),
+        # number of groups the master allocated before these
+        "earlier": st.sampled_from([0, 0, 0, 0, 12, 14, 15, 16, 17, 31, 40]),
     }).map(fit_first_group)
 
 
@@ -116,7 +119,15 @@ def run_case(case):
         windows = []
         pos = 100
         allgroups = []
-        for gi, g in enumerate(case["groups"]):
+        # earlier (small) groups of the same master: they hold logical
+        # windows of their own
+        tiny = {"kind": "slow", "terms": [
+            {"in": 2, "out": 2, "rw": True, "mode": "fmmu", "decl": [1, 1],
+             "also": []}]}
+        groups = [tiny] * case.get("earlier", 0) + list(case["groups"])
+        if case.get("earlier"):
+            classes.append(f"earlier-groups={case['earlier']}")
+        for gi, g in enumerate(groups):
             terms = []
             for ti, spec in enumerate(g["terms"]):
                 pos += 1
